@@ -435,6 +435,7 @@ Judge(s, h, e) ==
     [] Kind(e) = "twin" -> JudgeTwin(e)
     [] Kind(e) = "q_pages" -> JudgePages(e)
     [] Kind(e) = "advance" -> JudgeAdvance(s, h, e, p)
+    [] Kind(e) = "bank_send" -> [ M_plain_transfer_touches_no_farm_state |-> Must(p.fm = s.fm /\ p.supply = s.supply) ]
     [] Kind(e) = "fm_pos_create" -> JudgePosCreate(s, h, e, p)
     [] Kind(e) = "fm_pos_expand" -> JudgePosExpand(s, h, e, p)
     [] Kind(e) = "fm_pos_close" -> JudgePosClose(s, h, e, p)
